@@ -41,6 +41,22 @@ for n in bad:
     if not ok:
         still.append(n)
 bad = still
+# control: a test that still fails is run on the *unchanged* build (/repo/_build, or $BASELINE_CONTROL_BUILD)
+# under the same machine load; if it fails there too the failure is not caused by the change under test
+CONTROL = os.environ.get("BASELINE_CONTROL_BUILD", "/repo/_build")
+if bad and os.path.realpath(CONTROL) != os.path.realpath(BUILD) and os.path.isdir(CONTROL):
+    still = []
+    for n in bad:
+        rx = "^" + n.replace("+", ".").replace("(", ".").replace(")", ".").replace("<", ".").replace(">", ".").replace("*", ".") + "$"
+        fails = 0
+        for _ in range(3):
+            if subprocess.call(["ctest", "--test-dir", CONTROL, "-R", rx, "--timeout", "900"], stdout=subprocess.DEVNULL, stderr=subprocess.DEVNULL) != 0:
+                fails += 1
+        if fails >= 2:
+            print("CONTROL", n, "also fails %d/3 on the unchanged build under the current load: not attributed to the change" % fails)
+        else:
+            still.append(n)
+    bad = still
 for n in bad[:20]:
     print("FAIL", n)
 for n in missing[:10]:
